@@ -68,11 +68,21 @@ PROPS = {
                  "value's byte slices are overwritten. Non-trivial = result holds >=1 non-empty string or slice; distinct by case hash."),
         "jobs": [{"run": "^TestC11", "shards": 32, "timeout_quick": 600, "timeout_thorough": 3000}],
     },
+    "C03": {
+        "rule": ("S = generated struct type (as C01, top-level struct, up to 8 fields) or a compiled catalog type; S' = S after a generated edit "
+                 "script applied recursively inside nested structs, slice elements, map values and pointer targets: remove fields (every wire "
+                 "type), add fields of any kind under indexes unused by S (including lower ones), rename, reorder declarations; plus hand-written "
+                 "pairs for recursive catalog types. The S' target is pre-populated (added and skipped fields hold generated values, also inside "
+                 "nested structs and behind pointers). Oracle: Unmarshal(Marshal_S(v), &s') == nil and s' equals the projection computed on the "
+                 "harness's value model (shared indexes: value decoded as in S; others: prior value). Non-trivial = a removed field with a "
+                 "non-zero value precedes a surviving non-zero field in the encoding; labels record the skipped wire forms; distinct by case hash."),
+        "jobs": [{"run": "^TestC03", "shards": 48, "timeout_quick": 600, "timeout_thorough": 3000}],
+    },
 }
 
 # Properties not (yet) claimed, with the reason. Kept current by hand.
 NOT_APPLICABLE = {p: "check not built yet in this commit (work in progress; the technique applies, see DESIGN.md)" for p in
-                  ["C03", "C04", "C07", "C08", "C10", "C12", "C13", "C14", "C15", "C16", "C17", "C19", "C20"]}
+                  ["C04", "C07", "C08", "C10", "C12", "C13", "C14", "C15", "C16", "C17", "C19", "C20"]}
 
 # commits in /repo that add build-tag-guarded hooks
 HOOK_COMMITS = []
